@@ -82,6 +82,22 @@ def find_function(ident):
             scope = found.body
     if node is None:
         raise KeyError("%s is not a function" % ident)
+    # import aliases of classes (from m import MathArrayShapeError as ShapeError): the function is read with the real class names
+    aliases = {}
+    for n in tree.body:
+        if isinstance(n, ast.ImportFrom):
+            for a in n.names:
+                if a.asname and a.asname != a.name:
+                    aliases[a.asname] = a.name
+    if aliases:
+        import copy
+        bound = {a.arg for a in ast.walk(node) if isinstance(a, ast.arg)} | {t.id for t in ast.walk(node) if isinstance(t, ast.Name) and isinstance(t.ctx, ast.Store)}
+        use = {k: v for k, v in aliases.items() if k not in bound}
+        if any(isinstance(t, ast.Name) and t.id in use for t in ast.walk(node)):
+            node = copy.deepcopy(node)
+            for t in ast.walk(node):
+                if isinstance(t, ast.Name) and t.id in use:
+                    t.id = use[t.id]
     return FuncSrc(rel, qual, node, cls_node, text)
 
 
